@@ -240,6 +240,10 @@ static void gen_c03_extended(std::vector<Case>& cases) {
       mk(type + " spend of OP_HASH160 <h> OP_EQUAL OP_NOP (24 bytes, not the P2SH template)", S, [&](Tx& f, Tx& t) { f.vout[1].spk.push_back(0x61); t.vin[1].prev_hash = txid(f); });
       mk(type + " spend of OP_HASH160 <h> OP_EQUALVERIFY OP_1 (not the P2SH template)", S, [&](Tx& f, Tx& t) { f.vout[1].spk.back() = 0x88; f.vout[1].spk.push_back(0x51); t.vin[1].prev_hash = txid(f); });
       mk(type + " spend of OP_NOP OP_HASH160 <h> OP_EQUAL (not the P2SH template)", S, [&](Tx& f, Tx& t) { f.vout[1].spk.insert(f.vout[1].spk.begin(), 0x61); t.vin[1].prev_hash = txid(f); }); }
+    // a version-1 program wrapped in P2SH is not a taproot output (BIP341): the taproot rules must not be applied to it
+    for (std::string type : {"p2tr-key", "p2tr-script"}) { gen::Shape s1 = shape_of(type, 0, 1); gen::Spend S = gen::make_spend(type, s1);
+      mk("P2SH-wrapped version-1 program under a " + type + " witness", S, [&](Tx& f, Tx& t) { bytes prog = f.vout[1].spk; bytes h = hash160(prog); bytes spk{0xa9, 0x14}; spk.insert(spk.end(), h.begin(), h.end()); spk.push_back(0x87);
+          f.vout[1].spk = spk; t.vin[0].prev_hash = txid(f); t.vin[0].script_sig = push_raw(prog); }); }
     // SIGPUSHONLY (not a standard flag): a scriptSig that is not push-only fails the spend whatever the output type
     { gen::Spend S = gen::make_spend("p2pk", sh);
       for (uint32_t fl : {F_STANDARD | F_SIGPUSHONLY, F_SIGPUSHONLY | F_P2SH, F_STANDARD}) {
